@@ -170,6 +170,10 @@ func (m *renomModel) Apply(ev string) {
 			si := describeSTUN(d.data)
 			if si.nom >= 0 {
 				m.issued = append(m.issued, renomIssued{value: si.nom, pair: arg, tx: si.tx})
+				// what the application's generator handed out is what goes on the wire (every value below 2^24 fits the attribute)
+				if g := m.side[0].genVals; len(g) > 0 && g[len(g)-1] < 1<<24 && int(g[len(g)-1]) != si.nom {
+					m.problem("", "the generator issued nomination value %d, the request carries %d", g[len(g)-1], si.nom)
+				}
 			}
 		}
 	case "drop":
@@ -377,6 +381,7 @@ func checkC20(c *runCtx) {
 		sp{"2x1, A's second candidate reaches B only later (peer-reflexive first), B's check on it still in flight, <=2 renominations, depth<=8", renomCfg{pairCfg{KindsA: h2, KindsB: h1, PrioA: lowHigh, Ticks: 1, HoldSignal: []string{"0:1"}}, 2, 8, []string{"b0>a1:request"}}},
 	)
 	specs = append(specs,
+		sp{"2x1, generator with values across the upper range of the 24-bit field (0xFFFF0, 0x100001, 0xFFFFFF), <=3 renominations, <=1 dup, depth<=8", renomCfg{pairCfg{KindsA: h2, KindsB: h1, PrioA: lowHigh, Ticks: 1, Dups: 1, NomValues: []uint32{0xFFFF0, 0x100001, 0xFFFFFF}}, 3, 8, nil}},
 		sp{"2x1, application generator that is not monotonic (2,1,3), <=2 renominations, <=1 dup, depth<=8", renomCfg{pairCfg{KindsA: h2, KindsB: h1, PrioA: lowHigh, Ticks: 1, Dups: 1, NomValues: []uint32{2, 1, 3}}, 2, 8, nil}},
 	)
 	if !c.quick() {
